@@ -290,7 +290,7 @@ int main(int argc, char **argv) {
     C_EXEC = mc_counter("schedules_executed"); C_STATES = mc_counter("states"); C_TRANS = mc_counter("transitions"); C_MAXSW = mc_counter("max_context_switches_in_one_execution");
     C_SHAREDW = mc_counter("harnesses_where_shared_memory_changed"); C_POINTS = mc_counter("scheduling_points_executed"); C_OUTCOMES = mc_counter("extra_distinct_outcome_vectors");
     if (mc_replay) return do_replay();
-    int nh = mc_thorough ? NH : 15;
+    int nh = mc_thorough ? NH : 16;
     mc_parallel("all interleavings at basic-block granularity, one harness per shard", nh, explore_harness, NULL);
     return mc_finish();
 }
